@@ -99,7 +99,7 @@ func TestExhaustive3(t *testing.T)   { runShape(t, shape{"3g_x1", 3, 1, 1}) }
 func TestExhaustive2x2(t *testing.T) { runShape(t, shape{"2g_x2", 2, 2, 1}) }
 
 // TestExhaustive4 enumerates the 4-goroutine space completely in the thorough tier (40 320 runs per
-// mutex) and a 1/4 slice of it in the quick tier.
+// mutex) and every second case of it in the quick tier.
 func TestExhaustive4(t *testing.T) {
-	runShape(t, shape{"4g_x1", 4, 1, stats.Scale(4, 1)})
+	runShape(t, shape{"4g_x1", 4, 1, stats.Scale(2, 1)})
 }
